@@ -728,6 +728,7 @@ func main() {
 			frontier = next
 			depthDone = depth
 		}
+		longHistories(c)
 		c.Extra("states_note", "states = distinct (offset, compartment lengths, content) keys through depth max-1; the deepest level is checked on every transition but its successor states are not stored")
 		if depthDone < maxDepth && len(frontier) > 0 {
 			c.NotExhaustive(fmt.Sprintf("depth %d of %d completed", depthDone, maxDepth))
@@ -739,4 +740,123 @@ func main() {
 		b, _ := json.Marshal(map[string]any{"ops": len(ops)})
 		_ = b
 	})
+}
+
+// longHistories: a few long, fixed histories (hundreds of compartments appended and consumed one by one, with
+// prepends and container splits in between) - the internal slot table is compacted only after many consumed slots,
+// which the depth-bounded search never reaches. Every step is compared with the byte queue.
+func longHistories(c *vlib.Ctx) {
+	type step struct {
+		name string
+		do   func(ct *container.Container, q *[]byte) string // returns "" or a complaint
+	}
+	get := func(n int) step {
+		return step{fmt.Sprintf("Get(%d)", n), func(ct *container.Container, q *[]byte) string {
+			b, err := ct.Get(n)
+			if n > len(*q) {
+				if err == nil {
+					return "ok-instead-of-error"
+				}
+				return ""
+			}
+			if err != nil {
+				return "error-instead-of-ok"
+			}
+			if !bytes.Equal(b, (*q)[:n]) {
+				return "wrong-bytes"
+			}
+			*q = (*q)[n:]
+			return ""
+		}}
+	}
+	app := func(i int) step {
+		d := []byte{byte(i), byte(i >> 8)}
+		return step{fmt.Sprintf("Append(%x)", d), func(ct *container.Container, q *[]byte) string {
+			ct.Append(clone2(d))
+			*q = append(*q, d...)
+			return ""
+		}}
+	}
+	pre := step{"Prepend(ee)", func(ct *container.Container, q *[]byte) string {
+		ct.Prepend([]byte{0xee})
+		*q = append([]byte{0xee}, *q...)
+		return ""
+	}}
+	split := step{"GetAsContainer(3)", func(ct *container.Container, q *[]byte) string {
+		nc, err := ct.GetAsContainer(3)
+		if len(*q) < 3 {
+			if err == nil {
+				return "ok-instead-of-error"
+			}
+			return ""
+		}
+		if err != nil || nc == nil {
+			return "error-instead-of-ok"
+		}
+		if !bytes.Equal(nc.CompileData(), (*q)[:3]) {
+			return "wrong-bytes"
+		}
+		*q = (*q)[3:]
+		return ""
+	}}
+	var hists [][]step
+	for _, n := range []int{120, 300} {
+		// n appends, then everything consumed two bytes at a time
+		var h []step
+		for i := 0; i < n; i++ {
+			h = append(h, app(i))
+		}
+		for i := 0; i < n+1; i++ {
+			h = append(h, get(2))
+		}
+		hists = append(hists, h)
+		// the same with a prepend / a split / an append every 25 reads
+		h = nil
+		for i := 0; i < n; i++ {
+			h = append(h, app(i))
+		}
+		for i := 0; i < n; i++ {
+			h = append(h, get(1))
+			switch i % 25 {
+			case 7:
+				h = append(h, pre)
+			case 13:
+				h = append(h, split)
+			case 21:
+				h = append(h, app(i+1000))
+			}
+		}
+		hists = append(hists, h)
+	}
+	for hi, h := range hists {
+		ct := container.New()
+		var q []byte
+		bad := ""
+		at := -1
+		p, stack := vlib.Catch(func() {
+			for i, st := range h {
+				if r := st.do(ct, &q); r != "" {
+					bad, at = st.name+":"+r, i
+					return
+				}
+				if ct.Length() != len(q) || ct.HoldsData() != (len(q) > 0) {
+					bad, at = st.name+":wrong-length", i
+					return
+				}
+				if i%16 == 0 && !bytes.Equal(container.VerifCarbonCopy(ct).CompileData(), q) {
+					bad, at = st.name+":content-mismatch", i
+					return
+				}
+			}
+		})
+		w := map[string]any{"long_history": hi, "failed_at_step": at}
+		switch {
+		case p != nil:
+			c.Violate("never-panics", "long-history", vlib.PanicSite(stack), fmt.Sprintf("long history %d: panic %v", hi, p), w)
+		case bad != "":
+			c.Violate("content-equals-byte-queue", "long-history", strings.SplitN(bad, ":", 2)[1], fmt.Sprintf("long history %d (%d steps), step %d %s: container holds %d bytes, byte queue %d", hi, len(h), at, bad, ct.Length(), len(q)), w)
+		}
+		c.Outcome("long-history:ok")
+		c.Add(0, int64(len(h)), int64(len(h)))
+	}
 }
